@@ -113,6 +113,13 @@ func (c *ctx) collisionFamilies() []pairFamily {
 			[2]triple{{"d", z(16384), []byte("p")}, {"d" + string(z(256)), z(16128), []byte("p")}},
 			[2]triple{{"d", []byte{5}, z(256)}, {"d", cat([]byte{5}, z(256)), z(0)}},
 		)
+		// only the FIRST byte of the varint written (0x80|low7 for lengths >= 128): 128 bytes of 0x80
+		// (which look like that truncated prefix) move across a boundary
+		e := func(n int) []byte { return bytes.Repeat([]byte{0x80}, n) }
+		f.pairs = append(f.pairs,
+			[2]triple{{"d", e(128), e(16384)}, {"d", e(256), e(16256)}},
+			[2]triple{{string(e(128)), e(16384), []byte("p")}, {string(e(256)), e(16256), []byte("p")}},
+		)
 		fams = append(fams, f)
 	}
 	// 6. lengths around the varint boundaries 127/128/16383/16384 in every field, bytes that look
